@@ -248,8 +248,10 @@ def evaluate(pieces: Sequence[Any], strings: Sequence[str]) -> Tuple[List[Tuple[
         if len(values) > 0:
             try:
                 regex_line, pointer_line = retree.render_pointer(err.cursor)
+                # line breaks may be shown escaped in the rendered line (they cannot be drawn verbatim)
+                plain = re.search("[\n\f\v\r]", s) is None
                 if not pointer_line.endswith("^") or (
-                    not fv_mode and (regex_line != s or len(pointer_line) > len(s) + 1)
+                    not fv_mode and plain and (regex_line != s or len(pointer_line) > len(s) + 1)
                 ):
                     fails.append((f"{pre}error-pointer-misdrawn",
                                   f"{shown}: regex_line={regex_line!r} pointer_line={pointer_line!r}"))
